@@ -297,7 +297,7 @@ func (t *Type) NewTypeFlags(Name string, Doc string, New NewFunc, Init InitFunc,
 	}
 	// FIXME inherit more stuff
 	tt := &Type{
-		ObjectType: t,
+		ObjectType: TypeType, // the type of a class is its metaclass - t is its base
 		Name:       Name,
 		Doc:        Doc,
 		New:        New,
@@ -1419,6 +1419,12 @@ func TypeNew(metatype *Type, args Tuple, kwargs StringDict) (Object, error) {
 	new_type = metatype.Alloc()
 	new_type.New = ObjectNew   // FIXME metatype.New // FIXME?
 	new_type.Init = ObjectInit // FIXME metatype.New // FIXME?
+	if base.IsSubtype(BaseException) && base.New != nil {
+		// Subclasses of exceptions must make exception instances:
+		// the exception constructor makes an instance of the
+		// class it is given
+		new_type.New = base.New
+	}
 
 	// Keep name and slots alive in the extended type object
 	et := new_type
